@@ -1,10 +1,10 @@
 package main
 
 import (
-	"strings"
 	"fmt"
 	"math"
 	"sort"
+	"strings"
 	"time"
 
 	tally "github.com/uber-go/tally/v4"
